@@ -35,6 +35,10 @@ SampleRange(k) ==
 IORanges == IF Sim THEN SampleRange(3)
             ELSE {<<s0, n>> : s0 \in 0..(NS - 1), n \in 1..NS} \cap
                  {r \in (0..(NS - 1)) \X (1..NS) : r[1] + r[2] <= NS}
+\* contents the sync agent may bring: all holes, or value MaxV + 1 in every block / in block 0 only
+SyncData == {EmptyData,
+             [b \in Blocks |-> [i \in 1..SPB |-> MaxV + 1]],
+             [b \in Blocks |-> IF b = 0 THEN [i \in 1..SPB |-> MaxV + 1] ELSE Hole]}
 WriteVals == IF Sim THEN {((rev + headN * 31) % MaxV) + 1} ELSE 1..MaxV
 
 Next ==
@@ -63,12 +67,28 @@ Next ==
                            \/ \E c \in {rev, rev + 2} : SetRev(c)))
     \/ \E n \in SnapFiles : InChain(n) /\ checkpoint # n /\ SetCheckpoint(n)
     \/ \E e \in holeQ : PunchOne(e)
+    \/ ("unmap" \in Ops /\ \E r \in IORanges : Unmap(r[1], r[2]))
+    \* (a target that does not exist would become an image without metadata: outside the model)
+    \/ ("replace" \in Ops /\ \E t \in DOMAIN disks : \E sr \in ArgNames : ReplaceDisk(t, sr))
+    \* replica side of a rebuild: the sync agent rewrites snapshot files (content and
+    \* flags of the healthy replica's: here any of a few shapes over the current names,
+    \* acyclic by construction: parents stay as they are, new files are inserted below
+    \* the head's parent only through SyncNew), then reload and UpdateLUNMap
+    \/ ("rebuild" \in Ops /\ \E n \in (DOMAIN disks \ {HeadF}) : \E dv \in SyncData : \E u \in BOOLEAN :
+            SyncFile(n, [parent |-> disks[n].parent, user |-> u, removed |-> FALSE, data |-> dv]))
+    \/ ("rebuild" \in Ops /\ LunMapScan)
+    \/ ("rebuild" \in Ops /\ LunMapMerge)
+    \/ ("rebuild" \in Ops /\ UpdateLUNMap)
 
-Spec == Init /\ [][Next]_vars
+\* while UpdateLUNMap is between its two sections only I/O runs (the controller has
+\* the replica in WO: no snapshot, removal, revert or resize reaches it)
+LmQuiet == lm.st = "scanned" => op'.name \in {"Write", "Read", "Unmap", "PunchOne", "LunMapMerge"}
+
+Spec == Init /\ [][Next /\ LmQuiet]_vars
 
 Bound == rev <= MaxRev
 
 \* observation-only variables are hidden from the fingerprint
 View == <<disks, headN, chain, loc, snapIdx, holeQ, size, open, mode, rebuilding,
-          dirty, rev, checkpoint, punch, preload, cleaner, ref, usnap>>
+          dirty, rev, checkpoint, punch, preload, cleaner, lm, stale, ref, usnap>>
 =============================================================================
